@@ -768,12 +768,46 @@ def run_loopback_case(sh, case):
     G.unload(mod)
 
 
+def run_constnet_overlap_case(sh, case):
+  """ONE net whose readers include two slices of the same wire: overlapping slices give the shared bits two drivers (refused with
+  MultiWriterError, whatever drives the net: a constant, a top-level input, an update block), disjoint slices are fine - for every
+  order of the connect statements"""
+  import itertools
+  rng = sh.rng("constnet", case)
+  drv = rng.choice(["const", "const", "input", "block"])
+  overlap = rng.random() < 0.6
+  a = rng.randrange(0, 3); w = rng.randrange(2, 5); b = a + w
+  c = (b - rng.randrange(1, w)) if overlap else b + rng.randrange(0, 2)
+  stmts = [f"s.x[{a}:{b}] //= s.k", f"s.x[{c}:{c + w}] //= s.k"]
+  if drv == "const": stmts.append(f"s.k //= {rng.randrange(1 << w)}")
+  elif drv == "input": stmts.append("s.k //= s.kin")
+  perms = list(itertools.permutations(range(len(stmts))))
+  for perm in perms:
+    src = "\n".join(["from pymtl3 import *", "class CNTop(Component):", "  def construct(s):",
+                     f"    s.kin = InPort({w}); s.k = Wire({w}); s.x = Wire(16); s.o = OutPort(16)"] + ["    " + stmts[i] for i in perm] +
+                    (["    @update", "    def up_k():", "      s.k @= s.kin"] if drv == "block" else []) + ["    @update", "    def up_o():", "      s.o @= s.x"]) + "\n"
+    mod = G.load_source(src, "c09cn")
+    try:
+      try: mod.CNTop().elaborate(); oc = None
+      except Exception as e: oc = type(e).__name__
+    finally:
+      G.unload(mod)
+    sh.count("elaborations"); sh.count("one_net_two_slices_orders_judged")
+    if overlap and oc is None:
+      sh.violation("defective-design-elaborated-without-error", {"defect": "two overlapping slices of one wire read the same net: the shared bits have two drivers", "net_driven_by": drv,
+                   "slices": [[a, b], [c, c + w]], "expected": ["MultiWriterError"], "design_source": src}, case=("constnet", case)); return
+    if not overlap and oc is not None:
+      sh.violation("defect-free-design-rejected", {"outcome": oc, "net_driven_by": drv, "slices": [[a, b], [c, c + w]], "design_source": src}, case=("constnet", case)); return
+  sh.count("one_net_two_slices:" + drv + (":overlap" if overlap else ":disjoint"))
+
+
 def run_shard(sh):
   if sh.idx == 0: run_looprange_probe(sh)
   for case in range(6 if sh.tier == "quick" else 60):
     run_twice_probe(sh, sh.idx * 1000 + case)
     run_slicepair_case(sh, sh.idx * 1000 + case)
     run_loopback_case(sh, sh.idx * 1000 + case)
+    run_constnet_overlap_case(sh, sh.idx * 1000 + case)
   for case in range(12 if sh.tier == "quick" else 200):
     run_holey(sh, sh.idx * 1000 + case)
   for case in range(6 if sh.tier == "quick" else 60):
